@@ -601,4 +601,5 @@ func gen(c *hmain.Ctx) {
 	genAdversarial(c)
 	genParser(c)
 	genConformance(c)
+	genThresholds(c) // last: the streams above keep their cases for a given seed
 }
